@@ -299,3 +299,20 @@ Theorem C09_state_norefresh_refuted :
   exists l, blk_tev_paced 93 0 l /\ fst (blk_timed_run_norefresh 93 true 0 l) = false.
 Proof. exact blk_timed_norefresh_refuted. Qed.
 Print Assumptions C09_state_norefresh_refuted.
+
+(* Block2, server side: stored large responses are kept per (resource, query, Request-Tag) key.
+   Downloads that differ in the key, interleaved in any way, restarted, continued after the
+   stored body is gone: every block sent in reply to a request is cut from the body of THAT
+   request's key, and at the offset the request named (when the requested size is within the
+   server's maximum). *)
+Theorem C09_proto_safety_block2_server : forall bodies maxszx l t, blk_xtab_ok bodies t ->
+  Forall (fun gr => match snd gr with
+                    | GrError _ => True
+                    | GrBlock num m szx data =>
+                        exists s, data = blk_slice_c (bodies (gq_key (fst gr))) (blk_chunk s) num /\
+                                  num = gq_num (fst gr) /\
+                                  ((maxszx = 0 \/ gq_szx (fst gr) <= maxszx) -> gq_num (fst gr) <> 0 ->
+                                   s = gq_szx (fst gr) /\ szx = gq_szx (fst gr))
+                    end) (blk_srv2_run bodies maxszx t l).
+Proof. exact blk_srv2_no_mix. Qed.
+Print Assumptions C09_proto_safety_block2_server.
